@@ -1705,7 +1705,9 @@ class Container:
         if round(new_volume, config.internal_precision) > self.max_volume:
             # A dilution that fills the vessel exactly comes out over its capacity by what the stored amounts hide,
             # times the dilution factor: within what the concentration is known to, the vessel is filled, not refused.
-            if new_volume - self.max_volume > self._concentration_allowance(solute, denominator) * new_volume:
+            # (... up to a millionth: with femtomoles of solute the concentration is known to per cent only, and that is not
+            # what a vessel's capacity is known to)
+            if new_volume - self.max_volume > min(1e-6, self._concentration_allowance(solute, denominator)) * new_volume:
                 raise ValueError("Dilute solution will not fit in container.")
             required_umoles *= (self.max_volume - self.volume) / (new_volume - self.volume)
 
